@@ -54,6 +54,16 @@ def check_ix_the_case(case, ctx):
     c = case["ix"]
     es, ps = ix.build_world(c["world"])
     exp = ix.expected(c, es, ps)
+    if c.get("empty_collections"):
+        # elements whose own collection is empty: what a for_all over no value means is not judged (C10 speaks of non-empty
+        # domains), so here the reference is the an(...) twin of the same description - C06 states that the agrees with an
+        ctx.cls("cls:description_with_empty_collections")
+        (enable_caching if c["caching"] else disable_caching)()
+        try:
+            q_an, enc_an = ix.build(c, es, ps, quant="an")
+            exp = [enc_an(r) for r in q_an.evaluate()]
+        finally:
+            enable_caching()
     n = len(exp)
     ctx.cls("cls:feature_interaction_description")
     ctx.cls("cls:n=0" if n == 0 else "cls:n=1" if n == 1 else "cls:n>=2")
@@ -89,15 +99,22 @@ def cases(spec, ctx):
             rng = ctx.rng(spec["sub"], i)
             want = i % 3
             best = None
-            for _ in range(60):     # rejection sampling on the number of solutions, every variable selected
+            fam = {"forall_subs", "forall_subs_pred", "forall_subs_vs_d"}
+            for _ in range(60 if i % 4 != 3 else 400):     # rejection sampling on the number of solutions, every variable selected
                 c = ix.gen_case(rng)
                 if not ix.all_selected(c):
+                    continue
+                if i % 4 == 3 and not (ix.tags(c) & fam):   # (a quarter: a universal statement over the element's own collection)
                     continue
                 es, ps = ix.build_world(c["world"])
                 best = c
                 if min(len(ix.expected(c, es, ps)), 2) == want:
                     break
             if best is not None:
+                if i % 4 == 3 and ix.tags(best) & {"forall_subs", "forall_subs_pred", "forall_subs_vs_d"}:
+                    for j in rng.sample(range(len(best["world"]["subs"])), rng.randint(1, 3)):
+                        best["world"]["subs"][j] = []
+                    best["empty_collections"] = True
                 yield {"ix": best}
         return
     for i in range(spec["n"]):
@@ -148,7 +165,8 @@ def cases(spec, ctx):
                 o["cls"] = rng.choice([0, 1, 2, 2])
         best["ambient"] = rng.choice(["none", "none", "query", "rule"])
         best["caching"] = rng.random() < 0.7
-        best["earlier_query_on_the_same_variables"] = rng.random() < 0.25
+        best["earlier_query_on_the_same_variables"] = rng.random() < 0.3
+        best["earlier_flavour"] = rng.choice(["negated", "join"])
         yield best
 
 
@@ -195,7 +213,19 @@ def run(case, world):
             if case.get("earlier_query_on_the_same_variables") and not case.get("registry"):
                 # the variables are long-lived: an earlier query over them used the NEGATED description (spelled afresh) and was
                 # evaluated; this description is a new query over the same variable objects
-                ctx_q, pre_xs = H.build_query(case["kinds"], doms, ["not", case["cond"]], case["sel"], form=case["form"], quant="an",
+                earlier = ["not", case["cond"]]
+                kinds_ = case["kinds"]
+                if case.get("earlier_flavour") == "join" and len(kinds_) >= 2:
+                    # ... or a JOIN whose comparison has a plain variable as its first operand, after a conjunct that binds
+                    # another variable: and_(c(x_k), x_i == x_j.p)  /  and_(c(x_k), x_i == x_j)
+                    pq = [(i, j) for i, ki in enumerate(kinds_) for j, kj in enumerate(kinds_) if ki == "P" and kj == "Q"]
+                    same = [(i, j) for i, ki in enumerate(kinds_) for j, kj in enumerate(kinds_) if i != j and ki == kj]
+                    if pq or same:
+                        i, j = (pq or same)[0]
+                        rhs = ["v", j, [["a", "p"]]] if pq else ["v", j, []]
+                        k_ = next(k for k in range(len(kinds_)) if k != i)
+                        earlier = ["and", ["cmp", ">=", ["v", k_, [["a", "a"]]], ["lit", 0]], ["cmp", "==", ["v", i, []], rhs]]
+                ctx_q, pre_xs = H.build_query(case["kinds"], doms, earlier, case["sel"], form=case["form"], quant="an",
                                               register=False)
                 list(ctx_q.evaluate())
             q, xs = H.build_query(case["kinds"], doms, case["cond"], case["sel"], form=case["form"], quant="the", register=False,
